@@ -69,6 +69,12 @@ class World:
             c.t, c.log_likelihood = int(s.t), float(s.log_likelihood)
             c.n, c.sum_px, c.sum_pxx = np.array(s.n), np.array(s.sum_px), np.array(s.sum_pxx)
             self.stats.append(c)
+        # one utterance lies in the far tail of the second component: its occupancy is positive but below machine
+        # precision (value-dependent code paths must not write into the caller's statistics either)
+        tiny = 3e-220
+        st = self.stats[2]
+        scale = tiny / max(float(st.n[1]), 1e-300)
+        st.n[1], st.sum_px[1], st.sum_pxx[1] = tiny, st.sum_px[1] * scale, st.sum_pxx[1] * scale
         self.stat_ids = [id(s) for s in self.stats]
         self.z = [r.normal(size=4) * 0.3] if fam != "jfa" else [r.normal(size=1) * 0.3, r.normal(size=4) * 0.3]
         # explicit starting point of ML training (handed over to the machine through its setters)
